@@ -8,7 +8,7 @@ import DitModel.Drv.Info
 import DitModel.Drv.Constr
 open Dit Dit.Drv
 
-def handlers : List (String × (J → Option J)) := basicHandlers ++ simplexHandlers ++ infoHandlers ++ constrHandlers
+def handlers : List (String × (J → Option J)) := basicHandlers ++ simplexHandlers ++ infoHandlers ++ opsHandlers ++ constrHandlers
 
 def answer (line : String) : String :=
   let line := line.trimAscii.toString
